@@ -4,7 +4,7 @@ import cplx_iv_ops as CI
 import iv_fun_ops as IVF
 
 LEVEL = "proof"
-LEAN_MODULES = ["Props.C14", "Props.C14more", "Props.C14fun", "Props.C14pow"]
+LEAN_MODULES = ["Props.C14", "Props.C14more", "Props.C14fun", "Props.C14pow", "Props.C14inf"]
 ASSUMPTIONS = ["containment theorems are for intervals with finite endpoints (add, sub, neg, pos, mul in all sign cases); infinite endpoints, "
                "div, sqrt, pow_int and the conversions are bit-exactly modelled and decided on sample points per case",
                "transcendental interval functions (iv.exp, log, sqrt, sin, cos, tan, cot, sec, csc, mpi_atan, iv.atan2, real ** with non-integer "
